@@ -315,7 +315,13 @@ func c15(c *core.Ctx, r *core.Report) {
 				}
 			}
 		}
-		r.Check(okArgs && okBinder && len(def.Blocks) == 1, "C15.R6", "configure.Default", c.FnPos(def), "the default configuration unconditionally installs the command-line loader and a merging binder")
+		okDef := okArgs && okBinder && len(def.Blocks) == 1
+		if !okDef && argsL != nil && viperB != nil {
+			// however it is put together: what the function hands out holds the command-line loader as its only
+			// loader and the merging binder, whatever happens (one abstract run: the function takes no decisions)
+			okDef = defaultConfigureByState(c, def, argsL, viperB)
+		}
+		r.Check(okDef, "C15.R6", "configure.Default", c.FnPos(def), "the default configuration unconditionally installs the command-line loader and a merging binder")
 		// and NewApp uses it
 		// (decided by interpreting the constructor, whatever helpers it is split into, with every function of another
 		// package standing for an opaque result)
@@ -586,4 +592,51 @@ func loaderIdentityRules(c *core.Ctx, r *core.Report, rule string) {
 			r.Check(ok, rule, "raw-loader@"+core.FnName(m), c.FnPos(m), "the raw loader returns its own bytes")
 		}
 	}
+}
+
+// defaultConfigureByState interprets configure.Default with the two constructors standing for tokens and looks at the
+// object it hands out: one loader list holding exactly the command-line loader, one field holding the binder.
+func defaultConfigureByState(c *core.Ctx, def, argsL, viperB *ssa.Function) bool {
+	ok := true
+	runs, und := runTable(c, def, func() (absint.Oracle, []absint.Value, []absint.Value) {
+		t := newTbl(c)
+		t.callee[argsL] = func(ip *absint.Interp, a []absint.Value) absint.Value { return absint.NewTok("ARGS-LOADER", "loader") }
+		t.callee[viperB] = func(ip *absint.Interp, a []absint.Value) absint.Value { return absint.NewTok("MERGING-BINDER", "binder") }
+		t.global = func(g *ssa.Global) absint.Value {
+			if g.Pkg != nil && g.Pkg.Pkg.Path() == "os" {
+				return &absint.Opaque{Why: "os." + g.Name()}
+			}
+			return nil
+		}
+		return t, nil, nil
+	}, func(ip *absint.Interp, out absint.Outcome) {
+		if out.Panic != nil || len(out.Ret) != 1 {
+			ok = false
+			return
+		}
+		obj, isTok := out.Ret[0].(*absint.Tok)
+		if !isTok {
+			ok = false
+			return
+		}
+		loaders, binder := 0, 0
+		for _, v := range obj.Fields {
+			switch x := v.(type) {
+			case *absint.List:
+				if len(x.Elems) == 1 && absint.Show(x.Elems[0]) == "ARGS-LOADER" {
+					loaders++
+				} else if len(x.Elems) > 0 {
+					ok = false
+				}
+			case *absint.Tok:
+				if x.ID == "MERGING-BINDER" {
+					binder++
+				}
+			}
+		}
+		if loaders != 1 || binder != 1 {
+			ok = false
+		}
+	})
+	return ok && und == "" && runs >= 1
 }
